@@ -4,6 +4,7 @@ import (
 	"fmt"
 	"go/token"
 	"go/types"
+	"strings"
 
 	"golang.org/x/tools/go/ssa"
 
@@ -160,9 +161,30 @@ func (e *Engine) access(fc *fnCtx, st *state, in ssa.Instruction, av AV, refType
 		default:
 			ev.need = R
 		}
+		atomicOp := strings.HasPrefix(what, "atomic:")
+		if atomicOp && ev.exempt == "immutable slot" {
+			// a slot reached through sync/atomic is state, whatever the stores say
+			ev.exempt = ""
+			ev.need = R
+		}
+		ev.site = h.site
+		ev.atomic = atomicOp
 		k := fmt.Sprintf("%p|%s|%v|%s", in, slot, write, t.P)
 		if old, ok := fc.accesses[k]; !ok || old.held > ev.held {
 			fc.accesses[k] = ev
+		}
+		if ev.exempt == "" && atomicOp {
+			if h.mode < ev.need {
+				fc.addDiag(localDiag{rule: "AT3", object: "atomic " + slot, instr: in,
+					reason: "a state slot is accessed through sync/atomic without the instance lock (" + strings.TrimPrefix(what, "atomic:") + "): it is synchronised separately from the rest of the container's state, so operations that touch both are no longer atomic (not a data race)"})
+			}
+			if h.mode >= R && !write {
+				if snaps == nil {
+					snaps = AV{}
+				}
+				snaps.add(Tag{K: tSnap, P: t.P, N: h.site})
+			}
+			continue
 		}
 		if ev.exempt == "" {
 			if h.mode < ev.need {
